@@ -244,3 +244,17 @@ class Check:
 def load_replay(path):
     with open(path) as f:
         return json.load(f)
+
+
+def run_main(fn):
+    """Run a check's main(); an unexpected Python exception is a harness error (exit 2), never exit 1."""
+    import traceback
+    try:
+        fn()
+    except SystemExit:
+        raise
+    except BaseException:
+        traceback.print_exc()
+        sys.stdout.flush()
+        print("HARNESS-ERROR unexpected exception in check (see traceback)", file=sys.stderr)
+        sys.exit(2)
